@@ -556,6 +556,70 @@ func runC10(r *Run) {
 	} else {
 		r.Bad("R14", "anchor/erc20 GenesisState.Validate", "", "not found")
 	}
+	r.Rule("R15", "ERR.a-failed-step-fails-the-conversion: every conversion debits one side first and credits the other afterwards, so a step whose error does not stop it leaves a credit without its debit. (a) In the four conversion functions and their two entry points a non-nil error of any Context-taking keeper / Haqq call reaches only failure exits (a `:=` that shadows the function's err, an assignment without return, lose it); (b) in the EVM hook, whose errors skip the log instead of failing the transaction, the failing side of the internal `burn` call's error cannot reach the payout of that same log (the shadowed-err slip: the test after the switch looks at another variable)")
+	{
+		var fns []*ssa.Function
+		for _, n := range []string{"convertCoinNativeCoin", "convertCoinNativeERC20", "convertERC20NativeCoin", "convertERC20NativeToken", "ConvertCoin", "ConvertERC20"} {
+			if fn, ok := P.FnOK("(" + erc20K + ".Keeper)." + n); ok {
+				fns = append(fns, fn)
+			} else {
+				r.Bad("R15", "anchor/"+n, "", "conversion function not found")
+			}
+		}
+		n := checkErrorsFailTheMessage(r, "R15", fns, "the conversion goes on after a failed step — escrowed coins that could not be burned stay while the tokens have left the escrow, tokens are minted for coins that were not escrowed")
+		r.Floor("R15", "error-returning steps in the conversion functions", n, 10)
+		if hk, ok := P.FnOK("(" + erc20K + ".Keeper).PostTxProcessing"); ok {
+			isPay := isCallMatching(func(ci CallInfo) bool { return ci.Name == "SendCoinsFromModuleToAccount" })
+			nB := 0
+			eachCall(hk, func(ci CallInfo) {
+				if ci.Name != "CallEVM" || !strArg(ci.Instr, "burn") {
+					return
+				}
+				nB++
+				edges := errEdges(ci.Instr)
+				if len(edges) == 0 {
+					// the error joins other branches' errors in a phi before it is tested
+					if ev := errResultOf(ci.Instr); ev != nil {
+						for _, b := range hk.Blocks {
+							iff, isIf := lastIf(b)
+							if !isIf {
+								continue
+							}
+							bo, isB := iff.Cond.(*ssa.BinOp)
+							if !isB || !(bo.Op == token.NEQ || bo.Op == token.EQL) || !(isNilConst(bo.X) || isNilConst(bo.Y)) {
+								continue
+							}
+							other := bo.X
+							if isNilConst(bo.X) {
+								other = bo.Y
+							}
+							if ph, isPhi := other.(*ssa.Phi); isPhi && backSlice(ph).Has(ev) {
+								if bo.Op == token.NEQ {
+									edges = append(edges, Edge{b, 0})
+								} else {
+									edges = append(edges, Edge{b, 1})
+								}
+							}
+						}
+					}
+				}
+				var wit []ssa.Instruction
+				loopHead := innermostLoop(ci.Instr.Block())
+				for _, e := range edges {
+					q := PathQuery{Fn: hk, StartBlock: e.From.Succs[e.Succ], Target: isPay}
+					if loopHead != nil {
+						q.Block = func(x ssa.Instruction) bool { return x == loopHead.Instrs[0] }
+					}
+					if w := q.Search(); w != nil {
+						wit = w
+					}
+				}
+				r.Check(len(edges) > 0 && wit == nil, "R15", fmt.Sprintf("%s#failed-burn-pays-nothing-%d", fnID(hk), nB), P.Pos(instrPos(ci.Instr)), "from the failing side of the burn's error the payout of the same log is unreachable",
+					"after the internal burn of the tokens sent to the module failed, the hook can still pay the escrowed coins out for that log: the tokens stay in circulation and the coins leave the escrow — supply exceeds the backing", P.witness(wit)...)
+			})
+			r.Floor("R15", "internal burn calls in the EVM hook", nB, 1)
+		}
+	}
 	r.Rule("R6", "PATH+FLOW.hook-guards: in PostTxProcessing the payout (MintCoins / CallEVM burn / SendCoinsFromModuleToAccount) is reachable only over the passing edges of: hook enabled (EnableErc20, EnableEVMHook), event name == Transfer, positive amount, registered pair found, recipient topic == ModuleAddress, pair.Enabled; the coin amount derives from the event data, the denom from the pair, the payee from topic 1, the burned contract is the log's address")
 	if fn, ok := P.FnOK("(" + erc20K + ".Keeper).PostTxProcessing"); ok {
 		isPayout := isCallMatching(func(ci CallInfo) bool {
